@@ -65,6 +65,10 @@ GLOBALS = {
     ("evaluation_trace.cpp", "use_logger_"): "out-of-class definition of the atomic diagnostic flag",
     ("logger.cpp", "g_logger"): "process-wide logger handle (observability only; installed by configuration)",
 }
+ACCUMULATORS = {  # struct -> (mode, reason)
+    "dense_record_impl": ("erase-on-start", "testing/harness recorder: 'a seeded state may contain the prior run's result under this key'"),
+    "sparse_record_impl": ("persistent", "documented: 'appends across runs so Recover|Record can continue a recording' (absolute-time entries; the user owns the key)"),
+}
 CONTEXT_TABLE_RE = re.compile(r"\w+_contexts|intern_race_context")
 
 
@@ -264,8 +268,52 @@ def check(run: Run) -> None:
                                     f"`{fld}`: the first graph built in the process decides it for every later graph ({ptxt})", loc=fa.loc(fis[0]))
         run.sites(n, 5, "intern lookups")
 
+    with run.obligation("C07.f", "K4+K2", "operator nodes that APPEND to a buffer they find in the GlobalState (which a GlobalContext seeds from the previous run): exact census, and the "
+                        "harness recorder discards whatever the seed holds under its key on EVERY path through start, so a run's recording never begins with the "
+                        "ticks of the run before it"):
+        found: Dict[str, str] = {}
+        for rel in run.tree.all_files():
+            if not any(rel.startswith(p_) for p_ in ("include/hgraph/lib/", "src/hgraph/lib/")):
+                continue
+            if "GlobalStateView" not in run.tree.read(rel):
+                continue
+            for fd_ in run.tree.file(rel).funcs:
+                if fd_.body is None or fd_.name != "eval" or not fd_.cls:
+                    continue
+                fa_ = R.parse(run, fd_, strict=False)
+                gs_params = {nm for ty, nm in fa_.params if nm and "GlobalStateView" in ty}
+                if not gs_params:
+                    continue
+                cn_ = R.aliases_of(fa_)
+                reads = [c for c in R.calls(fa_, "get") if isinstance(c.fn, C.Member) and cn_(c.fn.obj) in gs_params]
+                appends = [c for c in R.calls(fa_) if R.callee_name(c).split("::")[-1].split(".")[-1] in ("push_back", "push_back_unset", "begin_mutation")]
+                if reads and appends:
+                    found[fd_.cls] = rel
+        run.count(len(found), "C07.f")
+        for cls in sorted(set(found) - set(ACCUMULATORS)):
+            run.finding("C07.f", f"accumulator:{cls}:unclassified", f"{cls}::eval appends to a buffer it reads from the GlobalState and is not in the confirmed table: say whether "
+                        "its start discards the seeded buffer or why it is persistent by design", loc=found[cls])
+        for cls in sorted(set(ACCUMULATORS) - set(found)):
+            raise AnalysisError("anchor-vanished", f"C07.f: {cls}::eval no longer appends to a GlobalState buffer")
+        for cls, (mode, why) in sorted(ACCUMULATORS.items()):
+            if mode != "erase-on-start":
+                continue
+            fds_ = [f for f in run.tree.file(found[cls]).funcs if f.name == "start" and f.cls == cls and f.body is not None]
+            if len(fds_) != 1:
+                run.finding("C07.f", f"{cls}::start:missing", f"{cls} has no start hook that discards the seeded buffer", loc=found[cls])
+                continue
+            fa_ = R.parse(run, fds_[0])
+            gs_params = {nm for ty, nm in fa_.params if nm and "GlobalStateView" in ty}
+            cn_ = R.aliases_of(fa_)
+            fl = R.flow(run, fa_)
+            is_erase = lambda n, gs_params=gs_params, cn_=cn_: any(isinstance(c.fn, C.Member) and c.fn.name == "erase" and cn_(c.fn.obj) in gs_params
+                                                                 for c in (R.calls(n.ast) if n.ast is not None else []))
+            R.k2_precede(run, "C07.f", fl, is_erase, lambda n, fl=fl: n.id == fl.cfg.exit, f"{cls}::start erases the recorder key before it returns")
+
 
 VARIANTS = [
+    {"id": "f-recorder-keeps-seeded-buffer-when-sparse", "expect": "C07.f", "edits": [{"file": "include/hgraph/lib/std/operators/impl/record_replay_memory_impl.h", "find": "                          Scalar<\"key\", std::string> key, Scalar<\"sparse\", Bool>, Scalar<\"model\", Str>,\n                          GlobalStateView gs, State<ResolvedBindings> bindings)", "replace": "                          Scalar<\"key\", std::string> key, Scalar<\"sparse\", Bool> sparse, Scalar<\"model\", Str>,\n                          GlobalStateView gs, State<ResolvedBindings> bindings)"}, {"file": "include/hgraph/lib/std/operators/impl/record_replay_memory_impl.h", "find": "            gs.erase(key.value());", "replace": "            if (!sparse.value()) { gs.erase(key.value()); }"}]},
+    {"id": "f-twin-erase-first", "expect": None, "edits": [{"file": "include/hgraph/lib/std/operators/impl/record_replay_memory_impl.h", "find": "            bindings.set(ResolvedBindings{\n                .primary = testing::recording_binding_for(ts.base().schema()->delta_value_schema)});\n            gs.erase(key.value());", "replace": "            gs.erase(key.value());\n            bindings.set(ResolvedBindings{\n                .primary = testing::recording_binding_for(ts.base().schema()->delta_value_schema)});"}]},
     {"id": "c-marker-loses-thread-local", "expect": "C07.c", "edits": [{"file": "src/hgraph/runtime/global_state.cpp", "find": "        thread_local GlobalContext *active_global_context = nullptr;", "replace": "        GlobalContext *active_global_context = nullptr;"}]},
     {"id": "e-capture-context-lookup-ignores-same-cycle", "expect": "C07.e", "edits": [{"file": "src/hgraph/runtime/service_node.cpp", "find": "                    return context->path == path && context->storage_offset == storage_offset\n                        && context->same_cycle == same_cycle;", "replace": "                    return context->path == path && context->storage_offset == storage_offset;"}]},
     {"id": "a-sim-uses-wall", "expect": "C07.a", "edits": [{"file": EXEC, "find": "            const DateTime next = std::min(pending_time, state.end_time);\n            state.set_evaluation_time(next);\n            return next;", "replace": "            const DateTime next = std::min(std::max(pending_time, current_wall_time()), state.end_time);\n            state.set_evaluation_time(next);\n            return next;"}]},
